@@ -35,6 +35,8 @@ def harnesses(tier):
             ("c17_into_iter_shared", "2 pushes, clone, into_iter on the shared vector exhausted, other owner checked", 1),
             ("c17_from_iter_exact", "from_iter over 3 symbolic values with an exact size hint", 1),
             ("c17_from_iter_regrow", "from_iter over an iterator reporting size hint 2 but yielding 3 symbolic values (regrow path)", 1),
+            ("c17_owning_into_iter_partial", "Vector<Box<u32>>: 3 pushes, into_iter, 0..3 elements taken (symbolic), iterator dropped: every box freed exactly once", 2),
+            ("c17_owning_push_grow", "Vector<Box<u32>>: 3 pushes into with_capacity(2) (detach moves the boxes), contents read, vector dropped", 1),
             ("c17_default_empty_readonly_ops", "Vector::default(): len/is_empty/as_slice/clone/drop on the static empty header", 1)]
     for name, b, cov in seqs:
         hs.append(H(name, VEC, bounds=b + "; element values symbolic; CBMC pointer/bounds/double-free/dealloc-layout checks on",
